@@ -5,7 +5,7 @@ import Arimaa.Lemmas.RsAgreeRep
 Agreement of the regenerated model with the hand model: `valid_actions_` for both values of the flag, `valid_actions`.
 -/
 namespace Arimaa.RsAgree
-open Arimaa Arimaa.Gen Arimaa.Gen.Rs Arimaa.Rt
+open Arimaa Arimaa.Gen Arimaa.Gen.RsBase Arimaa.Rt
 
 theorem valid_actions__eq (s : GameState) (cr : Bool) :
     GameState_valid_actions_ s cr = Res.guard (s.validActions_Panics cr) (s.validActions_ cr) := by
